@@ -26,6 +26,14 @@
 namespace bloc
 {
 
+static Integer toInteger(Numeric d)
+{
+  /* it must fit in an integer: NaN fails the test */
+  if (!(d >= Numeric(INT64_MIN) && d < -Numeric(INT64_MIN)))
+    throw RuntimeError(EXC_RT_OUT_OF_RANGE);
+  return Integer(d);
+}
+
 Value& STRPOSExpression::value(Context & ctx) const
 {
   Value& val = _args[0]->value(ctx);
@@ -52,14 +60,19 @@ Value& STRPOSExpression::value(Context & ctx) const
         val.swap(std::move(v));
         return val;
       case Type::INTEGER:
-        s = *a2.integer();
+        if (!a2.isNull())
+          s = *a2.integer();
         break;
       case Type::NUMERIC:
-        s = Integer(*a2.numeric());
+        if (!a2.isNull())
+          s = toInteger(*a2.numeric());
         break;
       default:
         throw RuntimeError(EXC_RT_FUNC_ARG_TYPE_S, KEYWORDS[oper]);
       }
+      /* a null start yields null */
+      if (a2.isNull())
+        break;
       if (s < 0)
         throw RuntimeError(EXC_RT_INDEX_RANGE_S, a2.toString().c_str());
     }
